@@ -113,3 +113,59 @@ Theorem C17_influx_escape_injective :
   /\ (forall a b, escape_string a = escape_string b -> a = b).
 Proof. exact influx_escape_injective. Qed.
 Print Assumptions C17_influx_escape_injective.
+
+(* ---------------------------------------------------------------------------------------- *)
+(* Syntactic validity of the text payloads, against reference readers written from the protocols'
+   documentation (Model/InfluxLine.v, Model/GraphiteLine.v): printer followed by reader gives
+   back the series.
+
+   InfluxDB line protocol.  [influx_print now (name, tags, fields)] are the bytes of one line;
+   [influx_parse] is the strict reader.  For ARBITRARY bytes in the name and the tags -- the
+   escapers represent every byte -- the line reads back to the name, the grouped tags (sorted
+   keys, sorted values joined by "__"), the fields and the timestamp, exactly under [ipre_ok]:
+     * the name is not empty and does not start with '#' (a comment line);
+     * no tag key is empty and no (joined) tag value is empty     -- fails: known finding F5;
+     * there is a field; field keys have no ',' '=' ' ' '\'; every value is a number literal
+       (true of every %d text: Proofs dec_Z_number)                -- fails: known finding F4. *)
+From GS Require Import Model.InfluxLine Model.GraphiteLine Proofs.InfluxLine Proofs.GraphiteLine.
+
+Theorem C17_influx_line_roundtrip : forall now name tags fields,
+  match name with [] => False | b :: _ => b <> c_hash end ->
+  Forall (fun kv => fst kv <> [] /\ join_str s_uu (snd kv) <> []) (influx_groups tags) ->
+  fields <> [] ->
+  Forall (fun f => field_key_ok (fst f) = true /\ is_number_lit (snd f) = true) fields ->
+  influx_parse (influx_print now (name, tags, fields))
+  = Some (MkLP name (map (fun kv => (fst kv, join_str s_uu (snd kv))) (influx_groups tags)) fields now).
+Proof. intros now name tags fields H1 H2 H3 H4. exact (influx_line_roundtrip now (name, tags, fields) (conj H1 (conj H2 (conj H3 H4)))). Qed.
+Print Assumptions C17_influx_line_roundtrip.
+
+(* the tag condition holds when every tag has a non-empty key and a non-empty value (a tag
+   without ':' is a value of the key "unnamed"): C17's alphabets minus the F5 inputs `k:` / `:v` *)
+Theorem C17_influx_tags_ok : forall tags,
+  Forall (fun t => fst (influx_split t) <> [] /\ snd (influx_split t) <> []) tags ->
+  Forall (fun kv => fst kv <> [] /\ join_str s_uu (snd kv) <> []) (influx_groups tags).
+Proof. exact influx_groups_ok. Qed.
+Print Assumptions C17_influx_tags_ok.
+
+(* without the side conditions the printed line is NOT valid: F5 and F4 as theorems *)
+Theorem C17_influx_line_invalid_without :
+  influx_parse (influx_print 1 ([97], [[107; 58]], [([99], [53])])) = None          (* a:5|c|#k:  "a,k= c=5 1" *)
+  /\ influx_parse (influx_print 1 ([97], [[58; 118]], [([99], [53])])) = None       (* #:v        "a,=v c=5 1" *)
+  /\ influx_parse (influx_print 1 ([97], [], [([118], [43; 73; 110; 102])])) = None. (* +Inf       "a v=+Inf 1" *)
+Proof. exact (conj (proj1 influx_empty_tag_value_rejected) (conj (proj1 (proj2 influx_empty_tag_value_rejected)) influx_nonfinite_rejected)). Qed.
+Print Assumptions C17_influx_line_invalid_without.
+
+(* Graphite plaintext, all three modes ([g_legacy], [g_tags] of the configuration): a printed
+   entry reads back to its path (namespace . normalised name . suffix . global suffix), its
+   tags (`k:v` -> (k, v), a bare tag -> ("unnamed", tag), then ("host", source) unless a host:
+   tag exists; none in basic / legacy mode), the printed value and the timestamp.  Side
+   conditions ([gentry_ok]): namespace not empty; namespace, suffixes, tags and source without
+   ' ' ';' newline; the value text is a number literal; each tag has a non-empty name without
+   ";!^=" and a non-empty value not starting with '~' (`k:` is the analogue of F5 here). *)
+Theorem C17_graphite_line_roundtrip : forall fmt_f c now e,
+  gentry_ok c (prv fmt_f (ge_val e)) e ->
+  graphite_parse (gr_print fmt_f c now e)
+  = Some (MkGL (base_path c (ge_ns e) (ge_name e) (ge_suffix e)) (gtags_of c (ge_src e) (ge_tags e))
+               (prv fmt_f (ge_val e)) now).
+Proof. exact graphite_line_roundtrip. Qed.
+Print Assumptions C17_graphite_line_roundtrip.
